@@ -377,10 +377,8 @@ def check_histories(chk, n_programs, depth):
                 chk.fail("history-run-time-trace:" + step, inp, rt, srt, how)
             if step == "fresh":
                 if ct != sct:
-                    # the faithful expectation for programs with nested staging comes from the in-process model run;
-                    # here only the class is known, so the matcher's model field is filled from the in-process replay
-                    hy = vlib.use_repo_in_process()
-                    ct2, rt2, _, _ = run_inprocess(hy, " ".join(Render().form(f) for f in p))
+                    # the faithful model's trace (mirrored in model_ct) lets the known-finding matcher tell the
+                    # recorded double compilation from any other deviation
                     mexp = model_ct(p)
                     chk.fail("compile-time-trace", inp, {"compile_time": ct, "model_compile_time": mexp,
                                                          "run_time_ok": rt == srt}, sct, how)
